@@ -40,7 +40,12 @@ func NewSlotScope() *SlotScope {
 // GetSlot retrieves slot content by name.
 // Returns nil if the slot doesn't exist.
 func (ss *SlotScope) GetSlot(name string) *SlotContent {
-	return ss.Slots[name]
+	if content, ok := ss.Slots[name]; ok {
+		return content
+	}
+	// A slot is filled through an attribute name (#headerTop, v-slot:headerTop), and the
+	// HTML parser lower-cases attribute names: <slot name="headerTop"> is filled by that
+	return ss.Slots[strings.ToLower(name)]
 }
 
 // SetSlot sets the content for a named slot.
